@@ -838,6 +838,22 @@ func main() {
 	}
 	bounds = append(bounds, bentry{"fnReturn", retKind("fnReturn", fn("function.go", "*FunctionStatement", "Call"))})
 	bounds = append(bounds, bentry{"methReturn", retKind("methReturn", fn("class.go", "*ClassMethod", "Call"))})
+	// closures are called through CallExpression → paramSetValue as well
+	bounds = append(bounds, bentry{"closureParam", viaParamSetValue})
+	bounds = append(bounds, bentry{"closureReturn", retKind("closureReturn", fn("lambda.go", "*LambdaExpression", "Call"))})
+	promoted := ".shapeChanged"
+	if fd := fn("new.go", "", "paramSetValue"); fd != nil {
+		body := caseBody(fd, "*PromotedParameter")
+		switch {
+		case body == nil:
+			note("paramSetValue: case *PromotedParameter not found")
+		case containsCall(&ast.BlockStmt{List: body}, "param.SetValue"):
+			promoted = pk
+		default:
+			promoted = ".unchecked"
+		}
+	}
+	bounds = append(bounds, bentry{"promotedParam", promoted})
 
 	// ---- emit
 	var sb strings.Builder
